@@ -78,6 +78,21 @@ fn plain_switch_cases(out: &mut Out, r: &mut Rng, thorough: bool) {
                     Err(_) => { if src + 1 < nl { out.raw(&format!("!FAIL plain_switch {} L{} {}->{} {} :: a legal switch was refused # plain-{}", sn, nl, src, src + 1, nm, sn)); } else { out.raw(&format!("!OK plain_switch {} L{} {} past the last level refused # plain-refuse", sn, nl, nm)); } }
                 }
             }
+            // the walk against the Lean model (plan of `mod_switch_plain_to_inplace` = the code regenerated from source, data by `plainWalkData`):
+            // levels as chain indices (0 = last), prime counts by chain index
+            { let kcs: Vec<u64> = (0..nl).map(|j| kcount(&levels[nl - 1 - j]) as u64).collect();
+              for tgt in 0..nl {
+                  let (ci, ti) = (nl - 1 - src, nl - 1 - tgt);
+                  out.case(&format!("plain_switch_to 1 1 {} {} {} {} {}", ci, ti, n, fl(&kcs), fl(p.data())), &format!("plain-walk-{}-{}", sn, if tgt < src { "up" } else if tgt == src { "same" } else { "down" }), || {
+                      let res = ev.mod_switch_plain_to_new(&p, &levels[tgt]);
+                      let idx = s.ctx.get_context_data(res.parms_id()).unwrap().chain_index();
+                      format!("{}:{}", idx, fl(res.data())) });
+              }
+              if scheme != SchemeType::CKKS && src + 1 < nl {
+                  let pc = plain_of(&m);
+                  out.case(&format!("plain_switch_to 1 0 {} {} {} {} {}", nl - 1 - src, nl - 2 - src, n, fl(&kcs), fl(pc.data())), &format!("plain-walk-{}-coef", sn), || {
+                      let res = ev.mod_switch_plain_to_new(&pc, &levels[src + 1]); format!("{}:{}", s.ctx.get_context_data(res.parms_id()).unwrap().chain_index(), fl(res.data())) });
+              } }
             // to-target, three forms, every target (upward must be refused, same level is the identity)
             for tgt in 0..nl {
                 let tos: Vec<(&str, F)> = vec![("to_new", Box::new(|| ev.mod_switch_plain_to_new(&p, &levels[tgt]))), ("to_dest", Box::new(|| { let mut d = Plaintext::new(); ev.mod_switch_plain_to(&p, &levels[tgt], &mut d); d })), ("to_inplace", Box::new(|| { let mut x = p.clone(); ev.mod_switch_plain_to_inplace(&mut x, &levels[tgt]); x }))];
